@@ -16,7 +16,7 @@ ASSUMPTIONS = ["agents do not mutate an order after acceptance", "prices are fin
 def run(ctx, model_available=True):
     res = market_checks.run_market_property(ctx, PROP, model_available=model_available)
     # (T2) the translated source of the decision code under the mini-Python semantics, against CPython
-    return py_checks.merge(res, ctx, ['order'], model_available=model_available)
+    return py_checks.merge(res, ctx, ['order', 'marketop'], model_available=model_available)
 
 
 def search(ctx, res):
